@@ -1,12 +1,27 @@
 (* C20 — images fit their box, keep their aspect and reproduce their pixels.
-   This file contains statements only; proofs live in proofs/ImageProofs.v. *)
+   This file contains statements only; proofs live in proofs/ImageProofs.v.
+
+   Full statement: resizing an image for display yields a cell size that never exceeds the
+   requested box, never upscales and preserves the aspect ratio to within one cell, for every
+   image size, box size and graphics protocol; block-rendered images give each cell exactly the
+   colours of the source pixels it covers, with sufficiently transparent pixels mapped to the
+   default colour, and drawing an image touches only cells inside the target window; an image
+   placement is transmitted when it first appears or changes, not retransmitted while unchanged,
+   and deleted when dropped or on a full refresh.
+
+   [dom x] is 0 < x < 2^24.  The theorems about resizeImage hold for image sizes, box sizes and
+   cell geometries in that range; the float64 arithmetic of resizeImage is modelled bit-exactly
+   ([rn], theorem C20_float_model), the int64/float64 overflow behaviour of larger operands is
+   not.  Not proved here: window clipping (C11; C20_draw_* only show that every write is a
+   Window.SetCell inside the image's own cell rectangle), the extent of a kitty placement (the
+   terminal paints it; KittyImage.Draw never consults the window size), and the encoders behind
+   kitty/sixel (PNG, go-sixel, octreequant) and x/image/draw's scaler, which are oracles. *)
 From Vx Require Import base.Prelude model.Image proofs.ImageProofs.
 
-(* [dom x] is 0 < x < 2^24: the theorems about resizeImage are for image sizes, box sizes and
-   cell geometries in that range (float64 holds the intermediate products exactly enough
-   there; the int64/float64 overflow behaviour of larger operands is not modelled). *)
+(* ---------------------------------------------------------------- resizing *)
 
-(* The resized image, measured in cells of cw x ch pixels (rounded up), never exceeds the box. *)
+(* The resized image, in cells of cw x ch pixels (rounded up), never exceeds the box — in
+   particular when both scale factors coincide. *)
 Theorem C20_fits_box : forall wPix hPix w h cw ch,
   dom wPix -> dom hPix -> dom w -> dom h -> dom cw -> dom ch ->
   exists nw nh, resize_dims wPix hPix w h cw ch = RDims nw nh /\
@@ -14,6 +29,196 @@ Theorem C20_fits_box : forall wPix hPix w h cw ch,
 Proof. exact fits_box. Qed.
 Print Assumptions C20_fits_box.
 
-(* non-vacuity: the confirmed defect's input (4x4 pixels, 1x2 cells, box 2x1) now scales *)
-Example C20_example_equal_factors : resize_dims 4 4 2 1 1 2 = RDims 2 2 /\ dom 4 /\ dom 2 /\ dom 1.
+Theorem C20_never_upscales : forall wPix hPix w h cw ch nw nh,
+  dom wPix -> dom hPix -> dom w -> dom h -> dom cw -> dom ch ->
+  resize_dims wPix hPix w h cw ch = RDims nw nh -> nw <= wPix /\ nh <= hPix.
+Proof. exact never_upscales. Qed.
+Print Assumptions C20_never_upscales.
+
+(* Aspect: an image that fits is returned unchanged; otherwise both sides are the exact common
+   scale s = min(w/columns, h/lines) of the original, rounded down and never more than one pixel
+   (hence one cell) below:  s*wPix - 1 <= nw <= s*wPix  and  s*hPix - 1 <= nh <= s*hPix. *)
+Theorem C20_aspect_within_one_cell : forall wPix hPix w h cw ch nw nh,
+  dom wPix -> dom hPix -> dom w -> dom h -> dom cw -> dom ch ->
+  resize_dims wPix hPix w h cw ch = RDims nw nh ->
+  aspect_ok wPix hPix w h cw ch nw nh = true.
+Proof. exact aspect_within_one. Qed.
+Print Assumptions C20_aspect_within_one_cell.
+
+(* ... so the aspect ratio nw : nh equals wPix : hPix up to one pixel of one side *)
+Theorem C20_aspect_cross : forall wPix hPix w h cw ch nw nh,
+  dom wPix -> dom hPix -> dom w -> dom h -> dom cw -> dom ch ->
+  resize_dims wPix hPix w h cw ch = RDims nw nh ->
+  - hPix <= nw * hPix - nh * wPix <= wPix.
+Proof. exact aspect_cross. Qed.
+Print Assumptions C20_aspect_cross.
+
+(* the model satisfies the predicate the differential run applies to the implementation *)
+Theorem C20_resize_ok : forall wPix hPix w h cw ch nw nh,
+  dom wPix -> dom hPix -> dom w -> dom h -> dom cw -> dom ch ->
+  resize_dims wPix hPix w h cw ch = RDims nw nh -> resize_ok wPix hPix w h cw ch nw nh = true.
+Proof. exact resize_ok_model. Qed.
+Print Assumptions C20_resize_ok.
+
+(* every protocol: kitty and sixel images (cells of cw x ch pixels) ... *)
+Theorem C20_kitty_sixel_cells_fit : forall wPix hPix w h cw ch,
+  dom wPix -> dom hPix -> dom w -> dom h -> dom cw -> dom ch ->
+  exists cw' ch', kitty_cell_size wPix hPix w h cw ch = Some (cw', ch') /\
+                  0 <= cw' <= w /\ 0 <= ch' <= h /\
+                  cw' <= ceil_div wPix cw /\ ch' <= ceil_div hPix ch.
+Proof. exact kitty_cells_fit. Qed.
+Print Assumptions C20_kitty_sixel_cells_fit.
+
+(* ... and half-block and full-block images (one cell = 1 x 2 pixels) *)
+Theorem C20_block_cells_fit : forall wPix hPix w h,
+  dom wPix -> dom hPix -> dom w -> dom h ->
+  exists cw' ch', block_cell_size wPix hPix w h = Some (cw', ch') /\
+                  0 <= cw' <= w /\ 0 <= ch' <= h /\ cw' <= wPix /\ ch' <= (hPix + 1) / 2.
+Proof. exact block_cells_fit. Qed.
+Print Assumptions C20_block_cells_fit.
+
+(* The float model: rn p q is m * 2^e with 2^52 <= m <= 2^53 the integer nearest to (p/q)/2^e,
+   ties to even, i.e. the binary64 nearest to p/q (normal range). *)
+Theorem C20_float_model : forall p q, 0 < p -> 0 < q ->
+  exists m e,
+    fst (rn p q) = m * 2 ^ Z.max e 0 /\ snd (rn p q) = 2 ^ Z.max (- e) 0 /\
+    2 ^ 52 <= m <= 2 ^ 53 /\
+    let P := scaleP p e in let Q := scaleQ q e in
+    2 ^ 52 * Q <= P < 2 ^ 53 * Q /\
+    - Q <= 2 * (m * Q - P) <= Q /\
+    (Z.abs (2 * (m * Q - P)) = Q -> Z.even m = true).
+Proof. exact rn_nearest_even. Qed.
+Print Assumptions C20_float_model.
+
+(* ---------------------------------------------------------------- pixels *)
+
+(* Half block: cell (x, y) of the encoding shows, in its upper half, the colour of pixel
+   (x, 2y) and, in its lower half, that of pixel (x, 2y+1) of the resized image, where the colour
+   of a pixel is the terminal default when its alpha is below the threshold (and for the row
+   below an odd-height image). *)
+Theorem C20_half_block_pixels_exact : forall im x y,
+  0 <= iw im -> 0 <= ih im -> 0 <= x < iw im -> 0 <= y < (ih im + 1) / 2 ->
+  exists c, zget (block_encode hb_cell im) (y * iw im + x) = Some c /\ glyph_ok c = true /\
+            shown_top c = px_colour (img_at im x (2 * y)) /\
+            shown_bottom c = px_colour (img_at im x (2 * y + 1)).
+Proof. exact half_block_pixels. Qed.
+Print Assumptions C20_half_block_pixels_exact.
+
+(* Full block: a space whose background is the average of the two covered pixels (default when
+   the averaged alpha is below the threshold); exact when the two pixels agree. *)
+Theorem C20_full_block_pixels_exact : forall im x y,
+  0 <= iw im -> 0 <= ih im -> 0 <= x < iw im -> 0 <= y < (ih im + 1) / 2 ->
+  zget (block_encode fb_cell im) (y * iw im + x) =
+  Some (g_space, 0, avg_colour (img_at im x (2 * y)) (img_at im x (2 * y + 1))).
+Proof. exact full_block_pixels. Qed.
+Print Assumptions C20_full_block_pixels_exact.
+
+Theorem C20_full_block_uniform : forall r g b,
+  0 <= r <= 255 -> 0 <= g <= 255 -> 0 <= b <= 255 ->
+  let p := (r * 257, g * 257, b * 257, 65535) in
+  fb_cell p p = (g_space, 0, rgb_color r g b).
+Proof. exact full_block_uniform. Qed.
+Print Assumptions C20_full_block_uniform.
+
+(* the colour of an opaque 8-bit pixel is exactly its RGB value ... *)
+Theorem C20_opaque_pixel_exact : forall r g b,
+  0 <= r <= 255 -> 0 <= g <= 255 -> 0 <= b <= 255 ->
+  px_colour (r * 257, g * 257, b * 257, 65535) = rgb_color r g b.
+Proof. exact opaque_pixel_colour. Qed.
+Print Assumptions C20_opaque_pixel_exact.
+
+(* ... and a pixel is the default colour exactly when its alpha (high byte) is below 50 *)
+Theorem C20_alpha_threshold : forall pr pg pb pa,
+  0 <= pa <= 65535 ->
+  (pa < 50 * 256 -> px_colour (pr, pg, pb, pa) = 0) /\
+  (50 * 256 <= pa -> tag_rgb <= px_colour (pr, pg, pb, pa)).
+Proof. exact alpha_threshold. Qed.
+Print Assumptions C20_alpha_threshold.
+
+(* the encoders satisfy the predicates the differential run applies to the implementation *)
+Theorem C20_half_cells_ok : forall im, 0 <= iw im -> 0 <= ih im ->
+  half_cells_ok im (iw im) ((ih im + 1) / 2) (block_encode hb_cell im) = true.
+Proof. exact half_cells_ok_model. Qed.
+Print Assumptions C20_half_cells_ok.
+
+Theorem C20_full_cells_ok : forall im, 0 <= iw im -> 0 <= ih im ->
+  full_cells_ok im (iw im) ((ih im + 1) / 2) (block_encode fb_cell im) = true.
+Proof. exact full_cells_ok_model. Qed.
+Print Assumptions C20_full_cells_ok.
+
+(* a scaled image samples source pixels inside the source (nearest neighbour) *)
+Theorem C20_scaled_pixels_from_source : forall src nw nh x y,
+  0 < iw src -> 0 < ih src -> 0 <= x < nw -> 0 <= y < nh ->
+  img_at (nn_scale src nw nh) x y = to8 (img_at src (nn_src nw (iw src) x) (nn_src nh (ih src) y)) /\
+  0 <= nn_src nw (iw src) x < iw src /\ 0 <= nn_src nh (ih src) y < ih src.
+Proof. exact scaled_pixels_from_source. Qed.
+Print Assumptions C20_scaled_pixels_from_source.
+
+(* ---------------------------------------------------------------- drawing *)
+
+(* image_draw_clip, as far as C20 goes: Draw of a block image is a list of Window.SetCell calls,
+   one per cell, each inside the image's own cell rectangle (clipping to the window is C11) *)
+Theorem C20_draw_block_inside : forall width height cells x y c,
+  0 < width -> zlen cells = width * height ->
+  In (x, y, c) (block_draw width cells) ->
+  0 <= x < width /\ 0 <= y < height /\ zget cells (y * width + x) = Some c.
+Proof. exact block_draw_inside. Qed.
+Print Assumptions C20_draw_block_inside.
+
+(* Sixel.Draw marks cells only when the whole image fits the window, and then only inside it *)
+Theorem C20_draw_sixel_inside : forall sw sh winw winh x y,
+  In (x, y) (sixel_draw sw sh winw winh) -> 0 <= x < sw /\ 0 <= y < sh /\ sw <= winw /\ sh <= winh.
+Proof. exact sixel_draw_inside. Qed.
+Print Assumptions C20_draw_sixel_inside.
+
+(* ---------------------------------------------------------------- placements *)
+
+(* samePlacement is equality of (id, col, row, w, h) *)
+Theorem C20_same_placement : forall a b, same_placement a b = true <-> a = b.
+Proof. exact same_placement_eq. Qed.
+Print Assumptions C20_same_placement.
+
+(* For every history of Clear / Draw / Render / Refresh from the initial state, and every frame
+   i of it (r = it is a Refresh, cur = graphicsNext at that frame, prev = graphicsNext at the
+   frame before, empty for the first): the events of the frame are the deletions followed by the
+   writes; p is written iff it is in cur and (refresh or not in prev) — new, moved or resized
+   placements differ from every previous one; p is deleted iff it is in prev and (refresh or
+   not in cur).  Hence a placement present in both frames is neither written nor deleted
+   unless the frame is a refresh. *)
+Theorem C20_placement_protocol : forall ops i r cur,
+  nth_error (frames_of [] ops) i = Some (r, cur) ->
+  exists evs, nth_error (run_ops g_init ops) i = Some evs /\
+    evs = frame_events r (prev_frame (frames_of [] ops) i) cur /\
+    (forall p, In (GWrite p) evs <-> In p cur /\ (r = true \/ ~ In p (prev_frame (frames_of [] ops) i))) /\
+    (forall p, In (GDelete p) evs <-> In p (prev_frame (frames_of [] ops) i) /\ (r = true \/ ~ In p cur)).
+Proof. exact placement_protocol. Qed.
+Print Assumptions C20_placement_protocol.
+
+(* one event list per Render/Refresh *)
+Theorem C20_placement_frames : forall ops, length (run_ops g_init ops) = length (frames_of [] ops).
+Proof. exact run_ops_length. Qed.
+Print Assumptions C20_placement_frames.
+
+(* ---------------------------------------------------------------- non-vacuity *)
+
+(* the confirmed defect's input (4x4 pixels, cells of 1x2, box 2x1: both factors 1/2) now scales *)
+Example C20_example_equal_factors :
+  resize_dims 4 4 2 1 1 2 = RDims 2 2 /\ dom 4 /\ dom 2 /\ dom 1 /\ block_cell_size 4 4 2 1 = Some (2, 1).
 Proof. vm_compute. repeat split; reflexivity || discriminate. Qed.
+
+(* binary64 rounds 1/49*49 below 1: a 49x1 image in a 1x1 box (cells 1x1) gets width 0 *)
+Example C20_example_float : resize_dims 49 1 1 1 1 1 = RDims 0 0 /\ rn 1 3 = (6004799503160661, 18014398509481984).
+Proof. vm_compute. split; reflexivity. Qed.
+
+(* a history: draw p, render, move it, render, keep, render, refresh *)
+Example C20_example_history :
+  let p := {| p_id := 1; p_col := 2; p_row := 3; p_w := 4; p_h := 2 |} in
+  let q := {| p_id := 1; p_col := 5; p_row := 3; p_w := 4; p_h := 2 |} in
+  run_ops g_init [ODraw p; ORender; OClear; ODraw q; ORender; OClear; ODraw q; ORender; ORefresh] =
+  [[GWrite p]; [GDelete p; GWrite q]; []; [GDelete q; GWrite q]].
+Proof. vm_compute. reflexivity. Qed.
+
+(* half block: opaque red over a transparent pixel is an upper half block in red on default *)
+Example C20_example_half_block :
+  hb_cell (255 * 257, 0, 0, 65535) (0, 0, 0, 49 * 257) = (g_upper, rgb_color 255 0 0, 0).
+Proof. vm_compute. reflexivity. Qed.
